@@ -562,6 +562,10 @@ def run(ctx: Ctx):
     if design_violations and not ctx.violations and not ctx.known_seen and not (only_spec or only_real or rejected):
         raise Machinery(f"TLC reports {design_violations} on the writer program but the real code conforms and shows none")
     ctx.cov["exhaustive"] = True
+    # unbounded safety of the design: inductive invariant of the replace protocol discharged with Apalache
+    if ctx.tier == "thorough" or os.environ.get("VERIF_APALACHE") == "1":
+        from . import apalache
+        apalache.check(ctx)
     ctx.cov["rule"] = ("every reachable directory state x every file-system call of the real writer as crash point "
                        f"(write chunks: first two, middle, last two), up to {max_writes} consecutive writes; "
                        "distinct = (state before, crash call index, state after)")
